@@ -116,7 +116,9 @@ class C09Scenario(ChangeScenario):
                     out.append(self.viol(env, 'never-cancelled', f"daemon {key[2]} got the stop flag at {inst['flag']} and ignores it; the cancellation due at {due} never came"
                                                                  + (" (the object vanished in between)" if vanished else ""),
                                          clause='stages', pattern='object-gone-while-stopping' if vanished else 'other'))
-                elif inst['cancel'] != due and not acts:
+                elif inst['cancel'] != due and not any(a.startswith(('pause', 'stop', 'restart', 'kill')) for a in acts):
+                    # further reasons to stop that concern the OBJECT (a deletion after a mismatch) do not restart the stages; a pause or an
+                    # exit of the operator stops the daemons by its own in-memory procedure, staged from that moment (not judged for exactness)
                     out.append(self.viol(env, 'cancelled-late', f"daemon {key[2]} got the stop flag at {inst['flag']}; cancelled at {inst['cancel']}, due at {due}",
                                          clause='stages'))
         # the operator's exit is bounded: stopping the daemons takes no longer than their backoffs + timeouts (a daemon that
@@ -278,6 +280,10 @@ def handler_sets(tier: str) -> list[tuple[str, list[dict]]]:
                                                          dict(id='dm2', on='daemon', reaction='exits', lifetime=9.0)]))
     sets.append(('daemon[exits]+timer', [dict(id='dm', on='daemon', reaction='exits', lifetime=2.0, **filt),
                                          dict(id='tm', on='timer', interval=4.0, script=['ok~1'], **filt)]))
+    # a filtered daemon that needs cancellation, on an object that a (retrying) deletion handler keeps alive: a second reason to stop
+    # (the deletion) arrives inside the backoff that the first one (the label) started
+    sets.append(('daemon[cancel,4.0,3.0]+delete-handler', [dict(id='dm', on='daemon', reaction='cancel', exit_delay=0.0, cancellation_backoff=4.0, cancellation_timeout=3.0, **filt),
+                                                            dict(id='d1', on='delete', script=['temp', 'temp', 'ok'])]))
     # a SYNCHRONOUS daemon (a thread: deaf to the flag here, cannot be interrupted): it stays one instance however often it is told to stop
     for duration, backoff, timeout in ((12.0, None, 30.0), (12.0, 2.0, 30.0), (9.0, None, 3.0)):
         sets.append((f'daemon[sync,{duration},{backoff},{timeout}]',
